@@ -135,6 +135,8 @@ def scenarios():
            {("/shared/dir/top", "data"): E["n_top"], ("/shared/dir/leaf_a", "data"): E["n_leaf_a"], ("/shared/dir/leaf_b", "data"): E["n_leaf_b"], ("/shared/dir/mid", "data"): E["n_mid"]}),
         SC("nested-keep-top-leaf-present", [k("/shared/dir/leaf_a", "n_leaf_a")], k("/top2", "n_top"), {("/shared/dir/leaf_a", "data"): [E["n_leaf_a"]]},
            {("/top2", "data"): E["n_top"], ("/shared/dir/leaf_a", "data"): E["n_leaf_a"], ("/shared/dir/leaf_b", "data"): E["n_leaf_b"], ("/shared/dir/mid", "data"): E["n_mid"]}),
+        # a table of more than a million rows (a writer may split such a table into several files)
+        SC("cold-first-keep-large-frame-parquet", [], k("/c6/bigframe", "s_big_frame"), {}, {("/c6/bigframe", "data"): scen.big_frame_value()}),
     ]
     return out
 
